@@ -11,4 +11,5 @@ Separate Extraction
   Conc.ConcPartition.ranges_inv_cross_color Conc.ConcPartition.ranges_argb_to_nrgba
   Conc.ConcPartition.ranges_compute_alphas Conc.ConcPartition.ranges_hashchain
   Conc.ConcPartition.hashchain_uses_parallel Conc.ConcPartition.encodeframe_uses_parallel
-  Conc.ConcPartition.workers_encode_parallel Conc.ConcPartition.workers_decode_frames.
+  Conc.ConcPartition.workers_encode_parallel Conc.ConcPartition.workers_decode_frames
+  Conc.ConcPartition.is_tiling.
